@@ -1,5 +1,7 @@
 import SafeC.Proofs.EM
 import SafeC.Props.C05Fld
+import SafeC.Proofs.EVMem
+import SafeC.Props.C05Copy
 import SafeC.Gen.Docs
 /-!
 # C05, "returns the documented failure indication": the codes a function can return ⊆ the `@retval` list of its doc comment
@@ -168,5 +170,562 @@ theorem strljustify_s_documented (cfg : Cfg) (dest dmax : Nat) (db : Bos) :
 /-- strremovews_s: every returned code is documented -/
 theorem strremovews_s_documented (cfg : Cfg) (dest dmax : Nat) (db : Bos) :
     ReturnsDocumented "strremovews_s" [] (strremovews_s cfg dest dmax db) id := of_Once (strremovews_s_ev ..) (strremovews_s_em ..) (by decide)
+
+/-! ## the memory family -/
+
+theorem em_chkDmaxMemB {S : List Nat} (dmax : Nat) (db : Bos) (max : Nat) {k : Option Nat → Prog Nat} (h1 : ESLEMAX ∈ S) (h2 : EOVERFLOW ∈ S)
+    (hk : ∀ b, EM S (k b)) : EM S (Mem.chkDmaxMemB dmax db max k) := by
+  unfold Mem.chkDmaxMemB
+  split
+  · split
+    · exact EM.failM _ h1
+    · exact hk _
+  · split
+    · split
+      · exact EM.failM _ h1
+      · exact EM.failM _ h2
+    · exact hk _
+
+theorem em_handleMemErrorB {S : List Nat} (w d len c : Nat) (h : c ∈ S) : EM S (Mem.handleMemErrorB w d len c) := by
+  unfold Mem.handleMemErrorB
+  exact EM.bind (EM.of_quiet (q_memsetBytes _ _ _ _)) (fun _ => EM.handlerM c h)
+
+abbrev SM : List Nat := [ESNULLP, ESZEROL, ESLEMAX, EOVERFLOW, ESNOSPC, ESOVRLP]
+
+/-- walk an entry point of the memory family -/
+macro "em_mem" : tactic => `(tactic| repeat (first
+  | exact EM.pure _
+  | exact EM.failM _ (by decide)
+  | exact EM.handlerM _ (by decide)
+  | exact em_handleMemErrorB _ _ _ _ (by decide)
+  | exact EM.of_quiet (q_mem_prim_set _ _ _ _)
+  | exact EM.of_quiet (q_mem_prim_set16 _ _ _)
+  | exact EM.of_quiet (q_mem_prim_set32 _ _ _)
+  | exact EM.of_quiet (q_mem_prim_move _ _ _)
+  | exact EM.of_quiet (q_mem_prim_move16 _ _ _)
+  | exact EM.of_quiet (q_mem_prim_move32 _ _ _)
+  | exact EM.of_quiet (q_memsetBytes _ _ _ _)
+  | (apply em_chkDmaxMemB _ _ _ (by decide) (by decide); intro _)
+  | (with_reducible apply EM.bind)
+  | intro _
+  | dsimp only
+  | split))
+
+abbrev SCP : List Nat := [ESNULLP, ESZEROL, ESLEMAX, EOVERFLOW, ESNOSPC, ESOVRLP]
+abbrev SMV : List Nat := [ESNULLP, ESZEROL, ESLEMAX, EOVERFLOW, ESNOSPC]
+abbrev SST : List Nat := [ESNULLP, ESLEMAX, EOVERFLOW, ESNOSPC]
+abbrev SZ : List Nat := [ESNULLP, ESZEROL, ESLEMAX, EOVERFLOW]
+
+theorem memcpy_s_em (d m s l : Nat) (db sb : Bos) : EM SCP (memcpy_s d m s l db sb) := by unfold memcpy_s; em_mem
+theorem memmove_s_em (d m s l : Nat) (db sb : Bos) : EM SMV (memmove_s d m s l db sb) := by unfold memmove_s; em_mem
+theorem memset_s_em (d m v n : Nat) (db : Bos) : EM SST (memset_s d m v n db) := by unfold memset_s; em_mem
+theorem memzero_s_em (d l : Nat) (db : Bos) : EM SZ (memzero_s d l db) := by unfold memzero_s; em_mem
+theorem memzero16_s_em (d l : Nat) (db : Bos) : EM SZ (memzero16_s d l db) := by unfold memzero16_s; em_mem
+theorem memzero32_s_em (d l : Nat) (db : Bos) : EM SZ (memzero32_s d l db) := by unfold memzero32_s; em_mem
+theorem memset16_s_em (d m v n : Nat) (db : Bos) : EM SST (memset16_s d m v n db) := by unfold memset16_s; em_mem
+theorem memset32_s_em (d m v n : Nat) (db : Bos) : EM SST (memset32_s d m v n db) := by unfold memset32_s; em_mem
+theorem memcpy16_s_em (d m s l : Nat) (db sb : Bos) : EM SCP (memcpy16_s d m s l db sb) := by unfold memcpy16_s; em_mem
+theorem memcpy32_s_em (d m s l : Nat) (db sb : Bos) : EM SCP (memcpy32_s d m s l db sb) := by unfold memcpy32_s; em_mem
+theorem memmove16_s_em (d m s l : Nat) (db sb : Bos) : EM SMV (memmove16_s d m s l db sb) := by unfold memmove16_s; em_mem
+theorem memmove32_s_em (d m s l : Nat) (db sb : Bos) : EM SMV (memmove32_s d m s l db sb) := by unfold memmove32_s; em_mem
+theorem wmemcpy_s_em (d m s l : Nat) (db sb : Bos) : EM SCP (wmemcpy_s d m s l db sb) := by unfold wmemcpy_s; em_mem
+theorem wmemmove_s_em (d m s l : Nat) (db sb : Bos) : EM SMV (wmemmove_s d m s l db sb) := by unfold wmemmove_s; em_mem
+
+/-- memcpy_s: every returned code is documented -/
+theorem memcpy_s_documented (d m s l : Nat) (db sb : Bos) : ReturnsDocumented "memcpy_s" [] (memcpy_s d m s l db sb) id :=
+  of_Once (memcpy_s_ev ..) (memcpy_s_em ..) (by decide)
+/-- memmove_s: every returned code is documented -/
+theorem memmove_s_documented (d m s l : Nat) (db sb : Bos) : ReturnsDocumented "memmove_s" [] (memmove_s d m s l db sb) id :=
+  of_Once (memmove_s_ev ..) (memmove_s_em ..) (by decide)
+/-- memset_s: every returned code is documented -/
+theorem memset_s_documented (d m v n : Nat) (db : Bos) : ReturnsDocumented "memset_s" [] (memset_s d m v n db) id :=
+  of_Once (memset_s_ev ..) (memset_s_em ..) (by decide)
+/-- memzero_s: every returned code is documented -/
+theorem memzero_s_documented (d l : Nat) (db : Bos) : ReturnsDocumented "memzero_s" [] (memzero_s d l db) id :=
+  of_Once (memzero_s_ev ..) (memzero_s_em ..) (by decide)
+/-- memzero16_s: every returned code is documented -/
+theorem memzero16_s_documented (d l : Nat) (db : Bos) : ReturnsDocumented "memzero16_s" [] (memzero16_s d l db) id :=
+  of_Once (memzero16_s_ev ..) (memzero16_s_em ..) (by decide)
+/-- memzero32_s: every returned code is documented -/
+theorem memzero32_s_documented (d l : Nat) (db : Bos) : ReturnsDocumented "memzero32_s" [] (memzero32_s d l db) id :=
+  of_Once (memzero32_s_ev ..) (memzero32_s_em ..) (by decide)
+/-- memset16_s: every returned code is documented -/
+theorem memset16_s_documented (d m v n : Nat) (db : Bos) : ReturnsDocumented "memset16_s" [] (memset16_s d m v n db) id :=
+  of_Once (memset16_s_ev ..) (memset16_s_em ..) (by decide)
+/-- memset32_s: every returned code is documented -/
+theorem memset32_s_documented (d m v n : Nat) (db : Bos) : ReturnsDocumented "memset32_s" [] (memset32_s d m v n db) id :=
+  of_Once (memset32_s_ev ..) (memset32_s_em ..) (by decide)
+/-- memcpy16_s: every returned code is documented -/
+theorem memcpy16_s_documented (d m s l : Nat) (db sb : Bos) : ReturnsDocumented "memcpy16_s" [] (memcpy16_s d m s l db sb) id :=
+  of_Once (memcpy16_s_ev ..) (memcpy16_s_em ..) (by decide)
+/-- memcpy32_s: every returned code is documented -/
+theorem memcpy32_s_documented (d m s l : Nat) (db sb : Bos) : ReturnsDocumented "memcpy32_s" [] (memcpy32_s d m s l db sb) id :=
+  of_Once (memcpy32_s_ev ..) (memcpy32_s_em ..) (by decide)
+/-- memmove16_s: every returned code is documented -/
+theorem memmove16_s_documented (d m s l : Nat) (db sb : Bos) : ReturnsDocumented "memmove16_s" [] (memmove16_s d m s l db sb) id :=
+  of_Once (memmove16_s_ev ..) (memmove16_s_em ..) (by decide)
+/-- memmove32_s: every returned code is documented -/
+theorem memmove32_s_documented (d m s l : Nat) (db sb : Bos) : ReturnsDocumented "memmove32_s" [] (memmove32_s d m s l db sb) id :=
+  of_Once (memmove32_s_ev ..) (memmove32_s_em ..) (by decide)
+/-- wmemcpy_s: every returned code is documented -/
+theorem wmemcpy_s_documented (d m s l : Nat) (db sb : Bos) : ReturnsDocumented "wmemcpy_s" [] (wmemcpy_s d m s l db sb) id :=
+  of_Once (wmemcpy_s_ev ..) (wmemcpy_s_em ..) (by decide)
+/-- wmemmove_s: every returned code is documented -/
+theorem wmemmove_s_documented (d m s l : Nat) (db sb : Bos) : ReturnsDocumented "wmemmove_s" [] (wmemmove_s d m s l db sb) id :=
+  of_Once (wmemmove_s_ev ..) (wmemmove_s_em ..) (by decide)
+
+/-! ## the query families -/
+
+theorem em_qFailS {S : List Nat} (c : Nat) (h : c ∈ S) : EM S (qFailS c) := by
+  unfold qFailS; exact EM.bind (EM.handlerS c h) (fun _ => EM.pure _)
+theorem em_qFailM {S : List Nat} (c : Nat) (h : c ∈ S) : EM S (qFailM c) := by
+  unfold qFailM; exact EM.bind (EM.handlerM c h) (fun _ => EM.pure _)
+theorem em_failS2 {S : List Nat} (c o : Nat) (h : c ∈ S) : EM S (failS2 c o) := by
+  unfold failS2; exact EM.bind (EM.handlerS c h) (fun _ => EM.pure _)
+
+macro "em_q" : tactic => `(tactic| repeat (first
+  | exact EM.pure _
+  | exact em_qFailS _ (by decide)
+  | exact em_qFailM _ (by decide)
+  | exact em_failS2 _ _ (by decide)
+  | exact EM.failS _ (by decide)
+  | exact EM.handlerS _ (by decide)
+  | exact EM.handlerM _ (by decide)
+  | exact EM.handleError _ _ _ _ (by decide)
+  | exact EM.loadP _
+  | assumption
+  | (with_reducible apply EM.bind)
+  | intro _
+  | dsimp only
+  | split))
+
+abbrev SQ : List Nat := [ESNULLP, ESZEROL, ESLEMAX, EOVERFLOW]
+theorem em_qChkS {S : List Nat} (h : ∀ c ∈ SQ, c ∈ S) (d m : Nat) (db : Bos) (src : Option Nat) : EM S (qChkS d m db src) := by
+  have h1 := h ESNULLP (by decide); have h2 := h ESZEROL (by decide); have h3 := h ESLEMAX (by decide); have h4 := h EOVERFLOW (by decide)
+  unfold qChkS
+  repeat (first | exact em_qFailS _ ‹_› | exact EM.pure _ | split)
+theorem em_qChkM {S : List Nat} (h : ∀ c ∈ SQ, c ∈ S) (d m : Nat) (db : Bos) : EM S (qChkM d m db) := by
+  have h1 := h ESNULLP (by decide); have h2 := h ESZEROL (by decide); have h3 := h ESLEMAX (by decide); have h4 := h EOVERFLOW (by decide)
+  unfold qChkM
+  repeat (first | exact em_qFailM _ ‹_› | exact EM.pure _ | split)
+theorem em_qChkSlenS {S : List Nat} (h3 : ESLEMAX ∈ S) (h4 : EOVERFLOW ∈ S) (l : Nat) (sb : Bos) : EM S (qChkSlenS l sb) := by
+  unfold qChkSlenS
+  repeat (first | exact em_qFailS _ ‹_› | exact EM.pure _ | split)
+
+theorem strcmpLoop_em {S : List Nat} (h : ESUNTERM ∈ S) (sb : Bos) (n d s l : Nat) : EM S (strcmpLoop sb n d s l) := by
+  have tail : ∀ d s, EM S (strcmpTail d s) := fun d s => EM.of_quiet (by unfold strcmpTail; quiet)
+  cases sb <;>
+  induction n generalizing d s l with
+  | zero => unfold strcmpLoop; em_walk using tail _ _, EM.handlerS _ h
+  | succ n ih => unfold strcmpLoop; em_walk using tail _ _, ih _ _ _, EM.handlerS _ h
+
+abbrev SQU : List Nat := [ESNULLP, ESZEROL, ESLEMAX, EOVERFLOW, ESUNTERM]
+theorem strcmp_s_em (d m s : Nat) (db sb : Bos) : EM SQU (strcmp_s d m s db sb) := by
+  unfold strcmp_s
+  refine EM.bind (em_qChkS (by decide) _ _ _ _) (fun r => ?_)
+  split
+  · exact EM.pure _
+  · exact strcmpLoop_em (by decide) _ _ _ _ _
+/-- strcmp_s: every returned code is documented -/
+theorem strcmp_s_documented (d m s : Nat) (db sb : Bos) : ReturnsDocumented "strcmp_s" [] (strcmp_s d m s db sb) (·.1) :=
+  of_QPost (strcmp_s_ev ..) (strcmp_s_em ..) (by decide)
+
+theorem strcasecmp_s_em (d m s : Nat) (db : Bos) : EM SQ (strcasecmp_s d m s db) := by
+  unfold strcasecmp_s
+  refine EM.bind (em_qChkS (by decide) _ _ _ _) (fun r => ?_)
+  split
+  · exact EM.pure _
+  · exact EM.of_quiet (by
+      generalize m = n
+      induction n generalizing d s with
+      | zero => unfold strcasecmpLoop; quiet using q_strcasecmpTail _ _
+      | succ n ih => unfold strcasecmpLoop; quiet using q_strcasecmpTail _ _, ih _ _)
+theorem strcmpfld_s_em (d m s : Nat) (db : Bos) : EM SQ (strcmpfld_s d m s db) := by
+  unfold strcmpfld_s
+  refine EM.bind (em_qChkS (by decide) _ _ _ _) (fun r => ?_)
+  split
+  · exact EM.pure _
+  · exact EM.of_quiet (by
+      have tail : ∀ d s, Quiet (strcmpTail d s) := fun d s => by unfold strcmpTail; quiet
+      generalize m = n
+      induction n generalizing d s with
+      | zero => unfold strcmpfldLoop; exact tail _ _
+      | succ n ih => unfold strcmpfldLoop; quiet using tail _ _, ih _ _)
+theorem q_strstrOuter (src slen n d : Nat) : Quiet (strstrOuter src slen n d) := by
+  induction n generalizing d with
+  | zero => unfold strstrOuter; quiet
+  | succ n ih => unfold strstrOuter; quiet using ih _, q_strstrInner _ _ _ _ _
+theorem q_strcasestrOuter (src slen n d : Nat) : Quiet (strcasestrOuter src slen n d) := by
+  induction n generalizing d with
+  | zero => unfold strcasestrOuter; quiet
+  | succ n ih => unfold strcasestrOuter; quiet using ih _, q_strcasestrInner _ _ _ _ _
+theorem q_strpbrkOuter (src slen n d : Nat) : Quiet (strpbrkOuter src slen n d) := by
+  induction n generalizing d with
+  | zero => unfold strpbrkOuter; quiet
+  | succ n ih => unfold strpbrkOuter; quiet using ih _, q_strpbrkInner _ _ _
+theorem strstr_s_em (d m s l : Nat) (db sb : Bos) : EM SQ (strstr_s d m s l db sb) := by
+  unfold strstr_s
+  refine EM.bind (em_qChkS (by decide) _ _ _ _) (fun r => ?_)
+  split
+  · exact EM.pure _
+  refine EM.bind (em_qChkSlenS (by decide) (by decide) _ _) (fun r => ?_)
+  split
+  · exact EM.pure _
+  em_walk using EM.of_quiet (q_strstrOuter _ _ _ _), EM.of_quiet (q_strlenP _ _ _)
+abbrev SQN : List Nat := [ESNULLP, ESZEROL, ESLEMAX, EOVERFLOW, ESNOTFND]
+theorem strcasestr_s_em (d m s l : Nat) (db sb : Bos) : EM SQN (strcasestr_s d m s l db sb) := by
+  unfold strcasestr_s
+  refine EM.bind (em_qChkS (by decide) _ _ _ _) (fun r => ?_)
+  split
+  · exact EM.pure _
+  em_walk using EM.of_quiet (q_strcasestrOuter _ _ _ _)
+theorem strchr_s_em (d m : Nat) (ch : Int) (db : Bos) : EM SQ (strchr_s d m ch db) := by
+  unfold strchr_s
+  refine EM.bind (em_qChkS (by decide) _ _ _ _) (fun r => ?_)
+  split
+  · exact EM.pure _
+  em_walk using EM.of_quiet (q_strchrP _ _ _)
+theorem memchr_s_em (d m : Nat) (ch : Int) (db : Bos) : EM SQ (memchr_s d m ch db) := by
+  unfold memchr_s
+  refine EM.bind (em_qChkM (by decide) _ _ _) (fun r => ?_)
+  split
+  · exact EM.pure _
+  em_walk using EM.of_quiet (q_memchrP _ _ _)
+theorem memrchr_s_em (d m : Nat) (ch : Int) (db : Bos) : EM SQ (memrchr_s d m ch db) := by
+  unfold memrchr_s
+  refine EM.bind (em_qChkM (by decide) _ _ _) (fun r => ?_)
+  split
+  · exact EM.pure _
+  em_walk using EM.of_quiet (q_memrchrP _ _ _)
+theorem strspn_s_em (d m s l : Nat) (db sb : Bos) : EM SQ (strspn_s d m s l db sb) := by
+  unfold strspn_s
+  refine EM.bind (em_qChkS (by decide) _ _ _ _) (fun r => ?_)
+  split
+  · exact EM.pure _
+  refine EM.bind (em_qChkSlenS (by decide) (by decide) _ _) (fun r => ?_)
+  split
+  · exact EM.pure _
+  em_walk using EM.of_quiet (q_spanOuter _ _ _ _ _ _)
+theorem strcspn_s_em (d m s l : Nat) (db sb : Bos) : EM SQ (strcspn_s d m s l db sb) := by
+  unfold strcspn_s
+  refine EM.bind (em_qChkS (by decide) _ _ _ _) (fun r => ?_)
+  split
+  · exact EM.pure _
+  em_walk using EM.of_quiet (q_spanOuter _ _ _ _ _ _)
+theorem strprefix_s_em (d m s : Nat) (db : Bos) : EM SQ (strprefix_s d m s db) := by
+  unfold strprefix_s
+  refine EM.bind (em_qChkS (by decide) _ _ _ _) (fun r => ?_)
+  split
+  · exact EM.pure _
+  em_walk using EM.of_quiet (strprefixLoop_q _ _ _)
+
+/-- strcasecmp_s: every returned code is documented -/
+theorem strcasecmp_s_documented (d m s : Nat) (db : Bos) : ReturnsDocumented "strcasecmp_s" [] (strcasecmp_s d m s db) (·.1) :=
+  of_QPost (strcasecmp_s_ev ..) (strcasecmp_s_em ..) (by decide)
+/-- strcmpfld_s: every returned code is documented -/
+theorem strcmpfld_s_documented (d m s : Nat) (db : Bos) : ReturnsDocumented "strcmpfld_s" [] (strcmpfld_s d m s db) (·.1) :=
+  of_QPost (strcmpfld_s_ev ..) (strcmpfld_s_em ..) (by decide)
+/-- strstr_s: every returned code is documented -/
+theorem strstr_s_documented (d m s l : Nat) (db sb : Bos) : ReturnsDocumented "strstr_s" [] (strstr_s d m s l db sb) (·.1) :=
+  of_QPost (strstr_s_ev ..) (strstr_s_em ..) (by decide)
+/-- strcasestr_s: every returned code is documented -/
+theorem strcasestr_s_documented (d m s l : Nat) (db sb : Bos) : ReturnsDocumented "strcasestr_s" [] (strcasestr_s d m s l db sb) (·.1) :=
+  of_QPost (strcasestr_s_ev ..) (strcasestr_s_em ..) (by decide)
+/-- strchr_s: every returned code is documented -/
+theorem strchr_s_documented (d m : Nat) (ch : Int) (db : Bos) : ReturnsDocumented "strchr_s" [] (strchr_s d m ch db) (·.1) :=
+  of_QPost (strchr_s_ev ..) (strchr_s_em ..) (by decide)
+/-- strspn_s: every returned code is documented -/
+theorem strspn_s_documented (d m s l : Nat) (db sb : Bos) : ReturnsDocumented "strspn_s" [] (strspn_s d m s l db sb) (·.1) :=
+  of_QPost (strspn_s_ev ..) (strspn_s_em ..) (by decide)
+/-- strcspn_s: every returned code is documented -/
+theorem strcspn_s_documented (d m s l : Nat) (db sb : Bos) : ReturnsDocumented "strcspn_s" [] (strcspn_s d m s l db sb) (·.1) :=
+  of_QPostAny (strcspn_s_ev ..) (strcspn_s_em ..) (by decide)
+/-- strprefix_s: every returned code is documented -/
+theorem strprefix_s_documented (d m s : Nat) (db : Bos) : ReturnsDocumented "strprefix_s" [] (strprefix_s d m s db) id :=
+  of_QPost (strprefix_s_ev ..) (strprefix_s_em ..) (by decide)
+
+/-- memrchr_s: every returned code is documented -/
+theorem memrchr_s_documented (d m : Nat) (ch : Int) (db : Bos) : ReturnsDocumented "memrchr_s" [] (memrchr_s d m ch db) (·.1) :=
+  of_QPostAny (memrchr_s_ev ..) (memrchr_s_em ..) (by decide)
+/-- memchr_s, FULL statement false against the current doc comment: EOVERFLOW (dmax above a known object size) is returned but the
+`@retval` list only says "ESLEMAX when dmax > RSIZE_MAX_MEM or > sizeof(dest)" (documentation finding `memchr-doc-eoverflow`) -/
+theorem memchr_s_documented_partial (d m : Nat) (ch : Int) (db : Bos) : ReturnsDocumented "memchr_s" [EOVERFLOW] (memchr_s d m ch db) (·.1) :=
+  of_QPostAny (memchr_s_ev ..) (memchr_s_em ..) (by decide)
+/-- the undocumented code is really returned: dmax 9 for a known object of 8 bytes -/
+theorem memchr_s_documented_witness :
+    ((exec (memchr_s 100 9 97 (some 8)) { data := fun _ => 7, mapped := fun _ => true, rd := fun _ => true, wr := fun _ => false }).toOption.map
+      (fun x => x.1.1)) = some EOVERFLOW ∧ EOVERFLOW ∉ docCodes "memchr_s" := by decide
+
+theorem strrchr_s_em (d m : Nat) (ch : Int) (db : Bos) : EM SQ (strrchr_s d m ch db) := by
+  unfold strrchr_s
+  refine EM.bind (em_qChkS (by decide) _ _ _ _) (fun r => ?_)
+  split
+  · exact EM.pure _
+  have hs : ∀ a b c, EM SQ (strnlen_s a b c) := by
+    intro a b c; unfold strnlen_s; em_walk using EM.of_quiet (q_strnlenLoop _ _ _ _)
+  em_walk using hs _ _ _, memrchr_s_em _ _ _ _
+/-- strrchr_s: every returned code is documented (ESZEROL is its documented answer for an empty string) -/
+theorem strrchr_s_documented (d m : Nat) (ch : Int) (db : Bos) : ReturnsDocumented "strrchr_s" [] (strrchr_s d m ch db) (·.1) :=
+  of_QPostAny (strrchr_s_ev ..) (strrchr_s_em ..) (by decide)
+
+abbrev SMC : List Nat := [ESNULLP, ESZEROL, ESLEMAX, EOVERFLOW, ESNOSPC]
+theorem memcmpChecks_em (max dlen slen dB sB dL dL' : Nat) (db sb : Bos) : EM SMC (memcmpChecks max dlen slen dB sB dL dL' db sb) := by
+  unfold memcmpChecks; em_q
+theorem memcmpG_em (max : Nat) (f : Nat → Nat → Int) (dest dlen src slen dB sB dL dL' : Nat) (db sb : Bos) :
+    EM SMC (memcmpG max f dest dlen src slen dB sB dL dL' db sb) := by
+  unfold memcmpG
+  em_walk using memcmpChecks_em _ _ _ _ _ _ _ _ _, EM.of_quiet (q_memcmpLoopQ _ _ _ _ _)
+/-- memcmp_s: every returned code is documented -/
+theorem memcmp_s_documented (d m s l : Nat) (db sb : Bos) : ReturnsDocumented "memcmp_s" [] (memcmp_s d m s l db sb) (·.1) :=
+  of_QPost (memcmp_s_ev ..) (memcmpG_em ..) (by decide)
+/-- memcmp16_s: every returned code is documented -/
+theorem memcmp16_s_documented (d m s l : Nat) (db sb : Bos) : ReturnsDocumented "memcmp16_s" [] (memcmp16_s d m s l db sb) (·.1) :=
+  of_QPost (memcmp16_s_ev ..) (memcmpG_em ..) (by decide)
+/-- memcmp32_s: every returned code is documented -/
+theorem memcmp32_s_documented (d m s l : Nat) (db sb : Bos) : ReturnsDocumented "memcmp32_s" [] (memcmp32_s d m s l db sb) (·.1) :=
+  of_QPost (memcmp32_s_ev ..) (memcmpG_em ..) (by decide)
+
+/-! Query2 -/
+theorem em_chkDmaxQ {α} {S : List Nat} (mk : Nat → α) (dmax : Nat) (db : Bos) (max : Nat) {k : Prog α} (h3 : ESLEMAX ∈ S) (h4 : EOVERFLOW ∈ S)
+    (hk : EM S k) : EM S (chkDmaxQ mk dmax db max k) := by
+  unfold chkDmaxQ
+  em_walk using EM.handlerS _ h3, EM.handlerS _ h4, hk
+theorem q_firstcharLoop (c n d : Nat) : Quiet (firstcharLoop c n d) := by
+  induction n generalizing d with
+  | zero => unfold firstcharLoop; quiet
+  | succ n ih => unfold firstcharLoop; quiet using ih
+theorem strfirstchar_s_em (d m c : Nat) (db : Bos) : EM SQ (strfirstchar_s d m c db) := by
+  unfold strfirstchar_s
+  em_walk using em_chkDmaxQ _ _ _ _ (by decide) (by decide) (EM.of_quiet (q_firstcharLoop _ _ _)), em_failS2 _ _ (by decide)
+theorem strlastchar_s_em (d m c : Nat) (db : Bos) : EM SQ (strlastchar_s d m c db) := by
+  unfold strlastchar_s
+  split
+  · exact em_failS2 _ _ (by decide)
+  split
+  · exact em_failS2 _ _ (by decide)
+  refine em_chkDmaxQ _ _ _ _ (by decide) (by decide) ?_
+  em_walk using EM.of_quiet (q_lastcharLoop _ _ _ _)
+theorem pairFn_em (sm fi : Bool) (nohit d m s : Nat) (db : Bos) : EM SQ (pairFn sm fi nohit d m s db) := by
+  unfold pairFn
+  split
+  · exact em_failS2 _ _ (by decide)
+  split
+  · exact em_failS2 _ _ (by decide)
+  split
+  · exact em_failS2 _ _ (by decide)
+  refine em_chkDmaxQ _ _ _ _ (by decide) (by decide) ?_
+  em_walk using EM.of_quiet (q_pairLoop _ _ _ _ _ _ _)
+/-- strfirstchar_s: every returned code is documented -/
+theorem strfirstchar_s_documented (d m c : Nat) (db : Bos) : ReturnsDocumented "strfirstchar_s" [] (strfirstchar_s d m c db) (·.1) :=
+  of_QPost (strfirstchar_s_ev ..) (strfirstchar_s_em ..) (by decide)
+/-- strlastchar_s: every returned code is documented -/
+theorem strlastchar_s_documented (d m c : Nat) (db : Bos) : ReturnsDocumented "strlastchar_s" [] (strlastchar_s d m c db) (·.1) :=
+  of_QPost (strlastchar_s_ev ..) (strlastchar_s_em ..) (by decide)
+/-- strfirstdiff_s: every returned code is documented -/
+theorem strfirstdiff_s_documented (d m s : Nat) (db : Bos) : ReturnsDocumented "strfirstdiff_s" [] (strfirstdiff_s d m s db) (·.1) :=
+  of_QPost (strfirstdiff_s_ev ..) (pairFn_em ..) (by decide)
+/-- strfirstsame_s: every returned code is documented -/
+theorem strfirstsame_s_documented (d m s : Nat) (db : Bos) : ReturnsDocumented "strfirstsame_s" [] (strfirstsame_s d m s db) (·.1) :=
+  of_QPost (strfirstsame_s_ev ..) (pairFn_em ..) (by decide)
+/-- strlastdiff_s: every returned code is documented -/
+theorem strlastdiff_s_documented (d m s : Nat) (db : Bos) : ReturnsDocumented "strlastdiff_s" [] (strlastdiff_s d m s db) (·.1) :=
+  of_QPost (strlastdiff_s_ev ..) (pairFn_em ..) (by decide)
+/-- strlastsame_s: every returned code is documented -/
+theorem strlastsame_s_documented (d m s : Nat) (db : Bos) : ReturnsDocumented "strlastsame_s" [] (strlastsame_s d m s db) (·.1) :=
+  of_QPost (strlastsame_s_ev ..) (pairFn_em ..) (by decide)
+
+/-! wide queries -/
+theorem wcscmpG_em (u : Bool) (d m s sm c : Nat) (db sb : Bos) : EM SQ (wcscmpG u d m s sm c db sb) := by
+  unfold wcscmpG
+  em_walk using EM.of_quiet (q_wcscmpLoop _ _ _ _ _ _)
+theorem wcsstr_s_em (d m s l : Nat) (db sb : Bos) : EM SQ (wcsstr_s d m s l db sb) := by
+  have q : ∀ a b c e, Quiet (wcsstrOuter a b c e) := by
+    intro a b c e
+    induction c generalizing e with
+    | zero => unfold wcsstrOuter; quiet
+    | succ n ih => unfold wcsstrOuter; quiet using ih _, q_wcsstrInner _ _ _ _ _
+  unfold wcsstr_s
+  em_walk using em_failS2 _ _ (by decide), EM.of_quiet (q _ _ _ _)
+theorem wmemcmp_s_em (d m s l : Nat) (db sb : Bos) : EM SMC (wmemcmp_s d m s l db sb) := by
+  unfold wmemcmp_s
+  em_walk using EM.of_quiet (q_wmemcmpLoop _ _ _ _)
+/-- wcscmp_s: every returned code is documented -/
+theorem wcscmp_s_documented (d m s sm : Nat) (db sb : Bos) : ReturnsDocumented "wcscmp_s" [] (wcscmp_s d m s sm db sb) (·.1) :=
+  of_QPost (wcscmp_s_ev ..) (wcscmpG_em ..) (by decide)
+/-- wcsncmp_s: every returned code is documented -/
+theorem wcsncmp_s_documented (d m s sm c : Nat) (db sb : Bos) : ReturnsDocumented "wcsncmp_s" [] (wcsncmp_s d m s sm c db sb) (·.1) :=
+  of_QPost (wcsncmp_s_ev ..) (wcscmpG_em ..) (by decide)
+/-- wcsstr_s: every returned code is documented -/
+theorem wcsstr_s_documented (d m s l : Nat) (db sb : Bos) : ReturnsDocumented "wcsstr_s" [] (wcsstr_s d m s l db sb) (·.1) :=
+  of_QPost (wcsstr_s_ev ..) (wcsstr_s_em ..) (by decide)
+/-- wmemcmp_s: every returned code is documented -/
+theorem wmemcmp_s_documented (d m s l : Nat) (db sb : Bos) : ReturnsDocumented "wmemcmp_s" [] (wmemcmp_s d m s l db sb) (·.1) :=
+  of_QPost (wmemcmp_s_ev ..) (wmemcmp_s_em ..) (by decide)
+
+/-! wide in-place -/
+theorem em_chkDmaxClearW {S : List Nat} (cfg : Cfg) (d m : Nat) (db : Bos) {k : Prog Nat} (h3 : ESLEMAX ∈ S) (h4 : EOVERFLOW ∈ S)
+    (hk : EM S k) : EM S (chkDmaxClearW cfg d m db k) := by
+  unfold chkDmaxClearW
+  em_walk using EM.failS _ h3, EM.handleError _ _ _ _ h3, EM.handleError _ _ _ _ h4, hk
+theorem wcsset_s_em (cfg : Cfg) (d m v : Nat) (db : Bos) : EM S4 (wcsset_s cfg d m v db) := by
+  unfold wcsset_s
+  split
+  · em_walk
+  split
+  · em_walk
+  split
+  · em_walk
+  refine em_chkDmaxClearW _ _ _ _ (by decide) (by decide) ?_
+  em_walk using EM.of_quiet (setLoop_silent _ _ _), EM.of_quiet (slackTail_silent _ _ _)
+theorem wcsnset_s_em (cfg : Cfg) (d m v n : Nat) (db : Bos) : EM [ESNULLP, ESZEROL, ESLEMAX, EOVERFLOW, ESNOSPC] (wcsnset_s cfg d m v n db) := by
+  unfold wcsnset_s
+  split
+  · em_walk
+  split
+  · em_walk
+  split
+  · em_walk
+  refine em_chkDmaxClearW _ _ _ _ (by decide) (by decide) ?_
+  em_walk using EM.of_quiet (setLoop_silent _ _ _), EM.of_quiet (slackTail_silent _ _ _)
+/-- wcsset_s: every returned code is documented -/
+theorem wcsset_s_documented (cfg : Cfg) (d m v : Nat) (db : Bos) : ReturnsDocumented "wcsset_s" [] (wcsset_s cfg d m v db) id :=
+  of_Once (wcsset_s_ev ..) (wcsset_s_em ..) (by decide)
+/-- wcsnset_s: every returned code is documented -/
+theorem wcsnset_s_documented (cfg : Cfg) (d m v n : Nat) (db : Bos) : ReturnsDocumented "wcsnset_s" [] (wcsnset_s cfg d m v n db) id :=
+  of_Once (wcsnset_s_ev ..) (wcsnset_s_em ..) (by decide)
+
+/-! ## the copy family and the field copies (object sizes as in `SmallBos` / `SrcOk`, see C05Copy.lean) -/
+abbrev SC : List Nat := [ESNULLP, ESZEROL, ESLEMAX, EOVERFLOW, ESOVRLP, ESNOSPC, ESUNTERM]
+
+theorem copyLoop_em {S : List Nat} (h1 : ESNOSPC ∈ S) (h2 : ESOVRLP ∈ S) (cfg : Cfg) (od bd : Bool) (bumper oD oM n d s l : Nat) :
+    EM S (copyLoop cfg od bd bumper oD oM n d s l) := by
+  induction n generalizing d s l with
+  | zero => unfold copyLoop; em_walk using EM.handleError _ _ _ _ h1
+  | succ n ih =>
+    unfold copyLoop
+    em_walk using EM.handleError _ _ _ _ h2, ih _ _ _, EM.of_quiet (Quiet.nullSlack _ _)
+theorem findEnd_em {S : List Nat} (h1 : ESUNTERM ∈ S) (h2 : ESOVRLP ∈ S) (cfg : Cfg) (cb : Bool) (bumper oD oM n d : Nat) :
+    EM S (findEnd cfg cb bumper oD oM n d) := by
+  induction n generalizing d with
+  | zero => unfold findEnd; em_walk
+  | succ n ih => unfold findEnd; em_walk using EM.handleError _ _ _ _ h2, EM.handleError _ _ _ _ h1, ih _
+theorem strnlen_s_em {S : List Nat} (h : ∀ c ∈ [ESNULLP, ESZEROL, ESLEMAX], c ∈ S) (a b : Nat) (c : Bos) : EM S (strnlen_s a b c) := by
+  have h1 := h ESNULLP (by decide); have h2 := h ESZEROL (by decide); have h3 := h ESLEMAX (by decide)
+  unfold strnlen_s
+  em_walk using EM.handlerS _ h1, EM.handlerS _ h2, EM.handlerS _ h3, EM.of_quiet (q_strnlenLoop _ _ _ _)
+theorem chkDmaxClear_em {S : List Nat} (h : ∀ c ∈ SQ, c ∈ S) (cfg : Cfg) (d m : Nat) (db : Bos) {k : Prog Nat} (hk : EM S k) :
+    EM S (chkDmaxClear cfg d m db RSIZE_MAX_STR k) := by
+  have h1 := h ESNULLP (by decide); have h2 := h ESZEROL (by decide); have h3 := h ESLEMAX (by decide); have h4 := h EOVERFLOW (by decide)
+  unfold chkDmaxClear chkDmaxClearG handleStrBosOverflow
+  em_walk using hk, strnlen_s_em (fun c hc => by
+      rcases List.mem_cons.mp hc with rfl | hc
+      · exact h1
+      rcases List.mem_cons.mp hc with rfl | hc
+      · exact h2
+      rcases List.mem_cons.mp hc with rfl | hc
+      · exact h3
+      · cases hc) _ _ _, EM.handlerS _ h3, EM.handleError _ _ _ _ h3, EM.handleError _ _ _ _ h4
+
+abbrev SCpy : List Nat := [ESNULLP, ESZEROL, ESLEMAX, EOVERFLOW, ESOVRLP, ESNOSPC]
+theorem strcpy_s_em (cfg : Cfg) (d m s : Nat) (db : Bos) : EM SCpy (strcpy_s cfg d m s db) := by
+  unfold strcpy_s strcpyG
+  split
+  · em_walk
+  split
+  · em_walk
+  refine chkDmaxClear_em (by decide) _ _ _ _ ?_
+  em_walk using copyLoop_em (by decide) (by decide) _ _ _ _ _ _ _ _ _ _
+theorem strcat_s_em (cfg : Cfg) (d m s : Nat) (db : Bos) : EM SC (strcat_s cfg d m s db) := by
+  unfold strcat_s strcatG
+  split
+  · em_walk
+  split
+  · em_walk
+  refine chkDmaxClear_em (by decide) _ _ _ _ ?_
+  em_walk using copyLoop_em (by decide) (by decide) _ _ _ _ _ _ _ _ _ _, findEnd_em (by decide) (by decide) _ _ _ _ _ _ _
+theorem wcscat_s_em (cfg : Cfg) (d m s : Nat) (db : Bos) : EM SC (wcscat_s cfg d m s db) := by
+  unfold wcscat_s chkDmaxW
+  em_walk using copyLoop_em (by decide) (by decide) _ _ _ _ _ _ _ _ _ _, findEnd_em (by decide) (by decide) _ _ _ _ _ _ _
+
+/-- strcpy_s (object size unknown or small): every returned code is documented -/
+theorem strcpy_s_documented_partial (cfg : Cfg) (d m s : Nat) (db : Bos) (hb : SmallBos db) :
+    ReturnsDocumented "strcpy_s" [] (strcpy_s cfg d m s db) id :=
+  of_Once (strcpy_s_ev_partial cfg d m s db hb) (strcpy_s_em ..) (by decide)
+/-- strcat_s, against the current doc comment: ESNOSPC ("not enough space", the code of the copy loop's exit) is returned but not
+listed among the `@retval` lines (documentation finding `strcat-doc-esnospc`) -/
+theorem strcat_s_documented_partial (cfg : Cfg) (d m s : Nat) (db : Bos) (hb : SmallBos db) :
+    ReturnsDocumented "strcat_s" [ESNOSPC] (strcat_s cfg d m s db) id :=
+  of_Once (strcat_s_ev_partial cfg d m s db hb) (strcat_s_em ..) (by decide)
+/-- the undocumented code is really returned: "ab" appended to "x" in 3 cells -/
+theorem strcat_s_documented_witness :
+    ((exec (strcat_s {} 100 3 200 none)
+      { data := fun a => if a = 100 then 120 else if a = 200 then 97 else if a = 201 then 98 else 0, mapped := fun _ => true, rd := fun _ => true, wr := fun _ => true }).toOption.map
+      (fun x => x.1)) = some ESNOSPC ∧ ESNOSPC ∉ docCodes "strcat_s" := by decide
+/-- wcscat_s: same gap in its doc comment -/
+theorem wcscat_s_documented_partial (cfg : Cfg) (d m s : Nat) (db : Bos) :
+    ReturnsDocumented "wcscat_s" [ESNOSPC] (wcscat_s cfg d m s db) id :=
+  of_Once (wcscat_s_ev ..) (wcscat_s_em ..) (by decide)
+
+theorem chkSlenMaxClear_em {S : List Nat} (h : ∀ c ∈ [ESNULLP, ESZEROL, ESLEMAX], c ∈ S) (cfg : Cfg) (d m l : Nat) {k : Prog Nat} (hk : EM S k) :
+    EM S (chkSlenMaxClear cfg d m l RSIZE_MAX_STR k) := by
+  unfold chkSlenMaxClear
+  em_walk using hk, strnlen_s_em h _ _ _, EM.handleError _ _ _ _ (h ESLEMAX (by decide))
+theorem strncpy_s_em (cfg : Cfg) (d m s l : Nat) (db sb : Bos) : EM SCpy (strncpy_s cfg d m s l db sb) := by
+  unfold strncpy_s strncpyG handleStrBosOverflow
+  split
+  · em_walk
+  split
+  · em_walk
+  split
+  · em_walk
+  refine chkDmaxClear_em (by decide) _ _ _ _ ?_
+  split
+  · em_walk
+  refine chkSlenMaxClear_em (by decide) _ _ _ _ ?_
+  em_walk using copyLoop_em (by decide) (by decide) _ _ _ _ _ _ _ _ _ _, strnlen_s_em (by decide) _ _ _
+/-- strncpy_s (object sizes as in `SmallBos` / `SrcOk`): every returned code is documented -/
+theorem strncpy_s_documented_partial (cfg : Cfg) (d m s l : Nat) (db sb : Bos) (hb : SmallBos db) (hs : SrcOk sb l) :
+    ReturnsDocumented "strncpy_s" [] (strncpy_s cfg d m s l db sb) id :=
+  of_Once (strncpy_s_ev_partial cfg d m s l db sb hb hs) (strncpy_s_em ..) (by decide)
+
+theorem fldLoop_em {S : List Nat} (h : ESOVRLP ∈ S) (cfg : Cfg) (k : FldKind) (od : Bool) (bumper oD oM fuel d s m l : Nat) :
+    EM S (fldLoop cfg k od bumper oD oM fuel d s m l) := by
+  induction fuel generalizing d s m l with
+  | zero => unfold fldLoop; exact EM.pure _
+  | succ fuel ih =>
+    unfold fldLoop
+    cases k <;> em_walk using EM.handleError _ _ _ _ h, ih _ _ _ _
+theorem fldG_em (k : FldKind) (cfg : Cfg) (d m s l : Nat) (db : Bos) : EM SCpy (fldG k cfg d m s l db) := by
+  unfold fldG chkSlenNospcClear
+  split
+  · em_walk
+  split
+  · em_walk
+  split
+  · em_walk
+  cases k
+  · dsimp only
+    refine chkDmaxClear_em (by decide) _ _ _ _ ?_
+    em_walk using fldLoop_em (by decide) _ _ _ _ _ _ _ _ _ _ _, strnlen_s_em (by decide) _ _ _, EM.of_quiet (Quiet.nullSlack _ _)
+  all_goals
+    dsimp only
+    refine em_chkDmax _ _ _ (by decide) (by decide) ?_
+    em_walk using fldLoop_em (by decide) _ _ _ _ _ _ _ _ _ _ _, strnlen_s_em (by decide) _ _ _, EM.of_quiet (Quiet.nullSlack _ _)
+/-- strcpyfld_s, against the current doc comment: EOVERFLOW (dmax above a known object size) is returned but not listed
+(documentation finding `strcpyfld-doc-eoverflow`; the two sibling functions list it) -/
+theorem strcpyfld_s_documented_partial (cfg : Cfg) (d m s l : Nat) (db : Bos) (hb : SmallBos db) :
+    ReturnsDocumented "strcpyfld_s" [EOVERFLOW] (strcpyfld_s cfg d m s l db) id :=
+  of_Once (strcpyfld_s_ev_partial cfg d m s l db hb) (fldG_em ..) (by decide)
+/-- strcpyfldin_s: every returned code is documented -/
+theorem strcpyfldin_s_documented_partial (cfg : Cfg) (d m s l : Nat) (db : Bos) (hb : SmallBos db) :
+    ReturnsDocumented "strcpyfldin_s" [] (strcpyfldin_s cfg d m s l db) id :=
+  of_Once (strcpyfldin_s_ev_partial cfg d m s l db hb) (fldG_em ..) (by decide)
+/-- strcpyfldout_s: every returned code is documented -/
+theorem strcpyfldout_s_documented_partial (cfg : Cfg) (d m s l : Nat) (db : Bos) (hb : SmallBos db) :
+    ReturnsDocumented "strcpyfldout_s" [] (strcpyfldout_s cfg d m s l db) id :=
+  of_Once (strcpyfldout_s_ev_partial cfg d m s l db hb) (fldG_em ..) (by decide)
+
+/-- non-vacuity: a code outside every list would be rejected by the kernel (`decide` evaluates the regenerated doc list) -/
+example : ESUNTERM ∉ docCodes "strcpy_s" ∧ ESUNTERM ∈ docCodes "strcat_s" := by decide
 
 end SafeC.Props.C05Docs
